@@ -2,6 +2,9 @@ SPECIFICATION Spec
 CONSTANTS
   SWriters = 3
   SPer = 2
+  DWriters = 1
+  DPer = 2
+  SharedEncoder = FALSE
   SendLock = TRUE
-INVARIANTS FramingIntact StreamOrder
+INVARIANTS FramingIntact StreamOrder NoCorruptMessage
 CHECK_DEADLOCK FALSE
